@@ -220,7 +220,7 @@ func run(r *report.Run, shard, nshards int, replayFile string) {
 		e.supply0 = append(e.supply0, w.Supply(ctx, d))
 		e.pool0 = append(e.pool0, e.communityPool(ctx, d))
 	}
-	r.Rule = "BFS over Send/Cancel/EndBlk50 (batch build)/EndBlkLate (timeout sweep)/EstimateQuorum/ExecutedQuorum/DepositQuorum/DropFees/RestoreFees on the real skyway handlers and end-blocker; every operation is additionally executed once per collaborator call it makes in that state (bank, EVM keeper) with that call failing; a case is distinct by (skyway store, balances, ghost ledger)"
+	r.Rule = "BFS over Send/Cancel/EndBlk50 (batch build)/EndBlkLate (timeout sweep)/EstimateQuorum/ExecutedQuorum/DepositQuorum/GovTax (bridge tax rate or exemption changed while transfers are pending)/DropFees/RestoreFees on the real skyway handlers and end-blocker; every operation is additionally executed once per collaborator call it makes in that state (bank, EVM keeper) with that call failing; a case is distinct by (skyway store, balances, ghost ledger)"
 	r.Assumptions = []string{
 		"fault-injected variants of message handlers run through keeper.NewMsgServerImpl(faultyKeeper) inside a cache context (ante not re-run); un-faulted variants are really signed txs through ante + router",
 		"quorum operations (estimates, claims) are macros of three validator messages + end-blocker; vote interleavings are C02's subject",
@@ -677,6 +677,26 @@ func (e *env) ops(n *explore.Node) []explore.Op {
 				return f
 			}, true)
 		}
+	}
+	// governance changes the bridge tax of token 1 while transfers are pending: what was escrowed
+	// (amount + the tax recorded with the transfer) is what a cancel refunds / an execution burns
+	for _, tx := range []struct {
+		name, rate string
+		exempt     []sdk.AccAddress
+	}{
+		{"1/2", "1/2", []sdk.AccAddress{e.users[1].Addr}},
+		{"0", "0", nil},
+		{"1/3,exempt=U1", "1/3", []sdk.AccAddress{e.users[0].Addr}},
+	} {
+		tx := tx
+		cur, _ := w.App.SkywayKeeper.BridgeTax(n.Ctx, e.denoms[0])
+		if cur != nil && cur.Rate == tx.rate && len(cur.ExemptAddresses) == len(tx.exempt) && (len(tx.exempt) == 0 || cur.ExemptAddresses[0].Equals(tx.exempt[0])) {
+			continue
+		}
+		add("GovTax(t1,"+tx.name+")", func(ctx *sdk.Context, g *ghost, k *skywaykeeper.Keeper) *explore.Fail {
+			must(w.App.SkywayKeeper.SetBridgeTax(*ctx, &skywaytypes.BridgeTax{Token: e.denoms[0], Rate: tx.rate, ExemptAddresses: tx.exempt}))
+			return nil
+		}, false)
 	}
 	// natural relayer-selection failure: fee records removed / restored
 	if !g.FeesOff {
